@@ -531,7 +531,18 @@ func init() {
 				}
 				defer e.Close()
 				saves := 0
-				for _, op := range pl.Ops {
+				// keys and values whose lengths sit on the boundaries of the length prefix (uvarint)
+				boundary := []int{127, 128, 129, 255, 256, 16383, 16384}
+				for i, op := range pl.Ops {
+					if i%7 == 3 && (op.Kind == "set" || op.Kind == "save") {
+						l := boundary[c.Rng.Intn(len(boundary))]
+						if c.Rng.Intn(2) == 0 {
+							e.Apply(v1x.Op{Kind: "set", K: []byte(fmt.Sprintf("len%05d", l)), V: bytes.Repeat([]byte{byte('a' + l%26)}, l)}, false)
+						} else if l <= 256 {
+							e.Apply(v1x.Op{Kind: "set", K: bytes.Repeat([]byte{byte('k')}, l), V: []byte(fmt.Sprintf("klen%d", l))}, false)
+						}
+						c.Obs("boundary_length_writes", 1)
+					}
 					out := e.Apply(op, false)
 					if e.Dead {
 						break
